@@ -22,7 +22,17 @@ func (fc *FnCtx) execCall(fr *Frame, st *State, reach string, call ssa.CallInstr
 	com := call.Common()
 	resT := com.Signature().Results()
 	var args []Val
-	if fr.parent == nil && fc.con != nil && len(fc.con.AtCall) > 0 {
+	// atcall clauses are checked in the function's own frame and in the frames of
+	// callees that were inlined because they have no contract of their own
+	root := fr
+	inlinedOK := true
+	for root.parent != nil {
+		if fc.eng.contracts[root.fn.String()] != nil {
+			inlinedOK = false
+		}
+		root = root.parent
+	}
+	if inlinedOK && fc.con != nil && len(fc.con.AtCall) > 0 {
 		name := ""
 		if com.IsInvoke() {
 			name = com.Method.Name()
@@ -33,7 +43,7 @@ func (fc *FnCtx) execCall(fr *Frame, st *State, reach string, call ssa.CallInstr
 			if ac.Field != name {
 				continue
 			}
-			avars := fc.paramVars(fr)
+			avars := fc.paramVars(root)
 			ai := 0
 			if com.IsInvoke() {
 				avars["arg0"] = fc.value(fr, st, com.Value)
@@ -43,9 +53,19 @@ func (fc *FnCtx) execCall(fr *Frame, st *State, reach string, call ssa.CallInstr
 				avars[fmt.Sprintf("arg%d", ai)] = fc.value(fr, st, a)
 				ai++
 			}
-			env := fc.specEnv(st, fc.oldSt, avars, fr.fn.Pkg.Pkg, fr, ac.Clause.Text)
+			env := fc.specEnv(st, fc.oldSt, avars, root.fn.Pkg.Pkg, root, ac.Clause.Text)
 			for _, part := range splitConj(ac.Clause.Expr) {
-				t := env.evalBool(part)
+				var t string
+				if fr.parent != nil {
+					// inside an inlined callee the clause may name locals of the
+					// function that are not yet defined at this call: not applicable there
+					var ok bool
+					if t, ok = env.tryBool(part); !ok {
+						continue
+					}
+				} else {
+					t = env.evalBool(part)
+				}
 				fc.oblige(fr, "atcall", name+": "+clauseName(ac.Clause), reach, t, env.quant, nil)
 			}
 		}
